@@ -1,0 +1,8 @@
+//go:build !verif
+
+package retry
+
+import "time"
+
+// verifBackoff is a verification hook; without the "verif" build tag it returns d unchanged.
+func verifBackoff(attempt int, d time.Duration) time.Duration { return d }
